@@ -7,9 +7,11 @@ package server
 // (tryConnect), established() frames the PDUs the harness writes (built by the real rtr
 // constructors) and posts them on the manager's event channel; the harness takes every event
 // off that channel and hands it to HandleROAEvent, exactly as BgpServer.Serve does, in an order
-// it chooses.  Lifetime timers are armed by the code (3600 s) and "expire" when the harness
-// says so: it calls Stop() on the real timer and injects the roaLifetimeout event only if Stop
-// reports that the code had left the timer running.
+// it chooses.  Lifetime timers are armed by the code (3600 s) and expire when the harness says
+// so: Stop() on the real timer tells whether the code had left it running, Reset(1ns) then runs
+// the code's own callback, which posts the genuine roaLifetimeout event.  The harness may hold
+// that event back and hand it over later (the Serve loop was busy), e.g. after the End of Data
+// of a new synchronisation — the order a real race between timer and loop produces.
 //
 // After every step the table and the per-client session state are compared with the Lean
 // model (Roa.step).  The oracle is the cache simulator itself: whenever a cache has completed
@@ -67,7 +69,16 @@ const (
 
 type c16Timer struct {
 	t        *time.Timer
+	ord      int // the ord-th lifetime timer armed by this manager (1, 2, …)
 	syncedAt int // value of host.syncs when armed
+	incarn   int // value of host.incarn when armed
+}
+
+// a lifetime-timeout event the real timer callback has posted and the harness has taken off
+// the channel but not yet handed to HandleROAEvent (BgpServer.Serve busy with other events)
+type c16Held struct {
+	ev *roaEvent
+	c16Timer
 }
 
 type c16Host struct {
@@ -80,7 +91,9 @@ type c16Host struct {
 	phase    c16Phase
 	stash    []*roaEvent
 	timers   []c16Timer
+	held     []c16Held
 	syncs    int // completed responses (End of Data handled) so far
+	incarn   int // AddServer calls so far
 
 	// the simulated cache
 	session uint16
@@ -106,6 +119,7 @@ type c16Srv struct {
 	hosts []*c16Host
 	m     *roaManager
 	trace []string
+	seen  map[*time.Timer]int // every lifetime timer the code has armed -> its ordinal
 }
 
 func c16NewHosts(t *testing.T, n int) []*c16Host {
@@ -158,6 +172,23 @@ func (s *c16Srv) recv(h *c16Host) *roaEvent {
 			}
 		case <-time.After(20 * time.Second):
 			s.t.Fatalf("no event from %s within 20 s; trace: %v", h.host, s.trace)
+		}
+	}
+}
+
+// recvFresh takes the next event of h off the channel, ignoring h's stash
+func (s *c16Srv) recvFresh(h *c16Host) *roaEvent {
+	for {
+		select {
+		case ev := <-s.m.eventCh:
+			if ev.Src == h.host {
+				return ev
+			}
+			if o := s.hostOf(ev.Src); o != nil {
+				o.stash = append(o.stash, ev)
+			}
+		case <-time.After(20 * time.Second):
+			s.t.Fatalf("no fresh event from %s within 20 s; trace: %v", h.host, s.trace)
 		}
 	}
 }
@@ -233,7 +264,7 @@ func (s *c16Srv) dump() string {
 			}
 		}
 		parts = append(parts, fmt.Sprintf("%d:%d,%d,%d,%d,%d,%s,%d,%s", h.idx, c.sessionID, c.oldSessionID, c.serialNumber,
-			c16B(c.endOfData), len(c.pendingROAs), conn, c16B(c.timer != nil), qs))
+			c16B(c.endOfData), len(c.pendingROAs), conn, s.seen[c.timer], qs))
 	}
 	return strings.Join(parts, " ")
 }
@@ -368,12 +399,15 @@ func c16OK(err error) string {
 	return "ok"
 }
 
-func (s *c16Srv) addServer(h *c16Host) {
-	err := s.m.AddServer(h.host, 3600)
+func (s *c16Srv) addServer(h *c16Host) { s.addServerLifetime(h, 3600) }
+
+func (s *c16Srv) addServerLifetime(h *c16Host, lifetime int64) {
+	err := s.m.AddServer(h.host, lifetime)
 	if err == nil {
 		s.accept(h)
 		s.await(h)
 		h.phase = c16ConnPending
+		h.incarn++
 		h.expect, h.why = map[string]c16Rec{}, "new-server-not-empty"
 		h.queries = nil
 	}
@@ -451,14 +485,9 @@ func (s *c16Srv) disconnected(h *c16Host) {
 	}
 	h.srv = nil
 	h.queries = nil
-	if c := s.client(h); c != nil && c.timer != nil {
-		known := false
-		for _, t := range h.timers {
-			known = known || t.t == c.timer
-		}
-		if !known {
-			h.timers = append(h.timers, c16Timer{c.timer, h.syncs})
-		}
+	if c := s.client(h); c != nil && c.timer != nil && s.seen[c.timer] == 0 {
+		s.seen[c.timer] = len(s.seen) + 1
+		h.timers = append(h.timers, c16Timer{c.timer, s.seen[c.timer], h.syncs, h.incarn})
 	}
 	if h.expect == nil {
 		// the response in progress is lost; what the table holds is retained as it is
@@ -472,29 +501,70 @@ func (s *c16Srv) disconnected(h *c16Host) {
 	s.stepDone("ok", "mdisc %d", h.idx)
 }
 
-// fire: the oldest lifetime timer of h that the code has left running expires
-func (s *c16Srv) fire(h *c16Host) bool {
+// expire: the oldest lifetime timer of h that the code has left running expires NOW. The real
+// timer is made to fire (Stop reports whether the code had left it running, Reset(1ns) runs the
+// code's own callback), the event the callback posts is taken off the channel and held.
+func (s *c16Srv) expire(h *c16Host) bool {
 	for len(h.timers) > 0 {
 		t := h.timers[0]
 		h.timers = h.timers[1:]
 		if !t.t.Stop() {
 			continue // the code had stopped it
 		}
-		if s.client(h) != nil {
-			if h.syncs > t.syncedAt {
-				// the cache has synchronised since this timer was armed: nothing may be purged
-				if h.expect != nil {
-					h.why = "stale-lifetime-timer-purges-synchronised-cache"
-				}
-			} else {
-				h.expect, h.why = map[string]c16Rec{}, "lifetime-expiry-no-purge"
-			}
-		}
-		s.m.HandleROAEvent(&roaEvent{EventType: roaLifetimeout, Src: h.host})
-		s.stepDone("ok", "mfire %d", h.idx)
+		t.t.Reset(time.Nanosecond)
+		s.hold(h, t)
 		return true
 	}
 	return false
+}
+
+// expireWait: the oldest timer of h expires by itself (tiny configured lifetime)
+func (s *c16Srv) expireWait(h *c16Host) {
+	t := h.timers[0]
+	h.timers = h.timers[1:]
+	s.hold(h, t)
+}
+
+func (s *c16Srv) hold(h *c16Host, t c16Timer) {
+	ev := s.recvFresh(h)
+	if ev.EventType != roaLifetimeout {
+		s.t.Fatalf("expected roaLifetimeout, got %d; trace %v", ev.EventType, s.trace)
+	}
+	h.held = append(h.held, c16Held{ev, t})
+	s.trace = append(s.trace, fmt.Sprintf("(lifetime timer %d of cache %d expires; its event waits in the channel)", t.ord, h.idx))
+}
+
+// deliver: the oldest held timeout event of h reaches HandleROAEvent
+func (s *c16Srv) deliver(h *c16Host) bool {
+	if len(h.held) == 0 {
+		return false
+	}
+	t := h.held[0]
+	h.held = h.held[1:]
+	if s.client(h) != nil {
+		if h.syncs > t.syncedAt || h.incarn != t.incarn {
+			// the cache has synchronised (or the server was re-added) since this timer was armed:
+			// its lifetime did not expire without a re-sync, nothing may be purged
+			if h.expect != nil {
+				h.why = "late-lifetime-event-purges-synchronised-cache"
+			}
+			s.o.stat("timeout_event_stale", 1)
+		} else {
+			h.expect, h.why = map[string]c16Rec{}, "lifetime-expiry-no-purge"
+			s.o.stat("timeout_event_legitimate", 1)
+		}
+	}
+	s.m.HandleROAEvent(t.ev)
+	s.stepDone("ok", "mfire %d %d", h.idx, t.ord)
+	return true
+}
+
+// fire: expiry and handling back to back
+func (s *c16Srv) fire(h *c16Host) bool {
+	if len(h.held) == 0 && !s.expire(h) {
+		return false
+	}
+	return s.deliver(h)
 }
 
 func (s *c16Srv) apiCloseFollowUp(h *c16Host, wasOpen bool) {
@@ -797,10 +867,12 @@ func (s *c16Srv) answer(h *c16Host, concat bool, sloppy bool, cut int) {
 
 func (s *c16Srv) newManager() {
 	s.m = newROAManager(table.NewROATable(slog.New(slog.DiscardHandler)), slog.New(slog.DiscardHandler))
+	s.seen = map[*time.Timer]int{}
 	s.o.op("mreset")
 	s.trace = s.trace[:0]
 	for _, h := range s.hosts {
 		h.phase, h.srv, h.stash, h.timers, h.syncs = c16Absent, nil, nil, nil, 0
+		h.held, h.incarn = nil, 0
 		h.expect, h.queries = nil, nil
 		h.db = map[string]c16Rec{}
 		h.deltas = map[uint32][]c16Delta{}
@@ -817,7 +889,7 @@ func (s *c16Srv) endCase() {
 		for _, t := range h.timers {
 			t.t.Stop()
 		}
-		h.timers = nil
+		h.timers, h.held = nil, nil
 	}
 }
 
@@ -920,6 +992,53 @@ func (s *c16Srv) corpus() {
 	}
 	s.endCase()
 
+	// 3c. the timer has fired, its event waits in the channel while End of Data of the new
+	// synchronisation is handled (Stop comes too late), and is handled afterwards
+	for variant := 0; variant < 4; variant++ {
+		s.newManager()
+		a.db[recA.key()] = recA
+		s.addServer(a)
+		s.settle(a)
+		s.closeConn(a)
+		s.disconnected(a)
+		if variant == 1 {
+			s.cacheRestart(a) // the new synchronisation comes with a new session id
+		}
+		s.connected(a)
+		s.expire(a)
+		s.settle(a) // End of Data
+		if variant == 2 { // … and a further disconnect re-arms the timer before the stale event arrives
+			s.closeConn(a)
+			s.disconnected(a)
+		}
+		if variant == 3 { // … or the server is deleted and added again, and synchronises with session id 0
+			s.deleteServer(a)
+			a.session, a.deltas = 0, map[uint32][]c16Delta{}
+			s.addServer(a)
+			s.settle(a)
+		}
+		s.deliver(a)
+		for s.fire(a) { // the timer armed by the second disconnect is a legitimate one
+		}
+		s.endCase()
+	}
+	// 3d. the same with a real 1-second lifetime and no help from the harness
+	s.newManager()
+	a.db[recA.key()], a.db[recB.key()] = recA, recB
+	s.addServerLifetime(a, 1)
+	s.settle(a)
+	s.closeConn(a)
+	s.disconnected(a) // arms the 1 s timer
+	s.connected(a)
+	a.queries = a.queries[1:]
+	s.pduCacheResponse(a, a.session)
+	s.pduPrefix(a, true, recA)
+	s.pduPrefix(a, true, recB)
+	s.expireWait(a) // ≤ 1 s later the timer fires by itself
+	s.pduEndOfData(a, a.session, a.serial, c16Copy(a.db), "reset-reply-not-replacing")
+	s.deliver(a)
+	s.endCase()
+
 	// 4. announce-then-withdraw inside one response
 	s.newManager()
 	a.db[recA.key()] = recA
@@ -1019,6 +1138,11 @@ func TestVerifC16Server(t *testing.T) {
 				}
 				continue
 			}
+			if len(h.held) > 0 && r.chance(20) {
+				s.deliver(h)
+				o.stat("step_late_timeout_delivered", 1)
+				continue
+			}
 			k := r.intn(100)
 			switch {
 			case h.phase == c16ConnPending && k < 70:
@@ -1071,7 +1195,11 @@ func TestVerifC16Server(t *testing.T) {
 					o.stat("step_close", 1)
 				}
 			case k < 82:
-				if s.fire(h) {
+				if r.chance(35) {
+					if s.expire(h) { // the event is handled later
+						o.stat("step_lifetime_expired_event_held", 1)
+					}
+				} else if s.fire(h) {
 					o.stat("step_lifetime_fired", 1)
 				}
 			case k < 87:
@@ -1098,6 +1226,11 @@ func TestVerifC16Server(t *testing.T) {
 				}
 			}
 			o.stat("case_settled_at_end", 1)
+		}
+		for i := 0; i < nh; i++ { // whatever still waits in the channel arrives now
+			for s.deliver(s.hosts[i]) {
+				o.stat("step_late_timeout_delivered", 1)
+			}
 		}
 		if c < 3 {
 			n := len(s.trace)
